@@ -536,6 +536,15 @@ def judge (caseLines : List String) (trace : List String) : List String :=
       | c :: rest =>
         let s := caseLine s c
         match toks c with
+        | "reloadf" :: top :: _ =>
+          -- the reference compile of the current sources (no binaries involved): its dumps and call results are what
+          -- every later load from a binary is compared with
+          let blk := tr.takeWhile (fun l => !(l.startsWith "end "))
+          let after := tr.drop blk.length
+          let s := { s with top := top }
+          let s := (blk ++ after.take 1).foldl (fun s l => (traceLine s 0 l).1) s
+          let s := if after.isEmpty then s.flag s!"reload-did-not-finish {top}" else s
+          go rest (after.drop 1) s fuel
         | "reloadp" :: top :: _ =>
           let blk := tr.takeWhile (fun l => !(l.startsWith "end "))
           let after := tr.drop blk.length
